@@ -119,6 +119,7 @@ func zooEntries(s string) []zooEntry {
 		{"z_multi", "日本語 テキスト 😀 é", "multi-byte string"},
 		{"z_badutf", "bad\xff\xfeutf\xc3", "invalid UTF-8 string"},
 		{"z_numstr", "42", "numeric string"},
+		{"z_hiddenkey", "hidden", "name of an unexported field"},
 		{"z_floatstr", "-3.75", "float string"},
 		{"z_long", string(make([]byte, 300)) + s, "long string with NULs"},
 		{"z_int", 42, "int"},
@@ -199,6 +200,9 @@ func zooEntries(s string) []zooEntry {
 		{"f_values", func(vs ...*pongo2.Value) *pongo2.Value { return pongo2.AsValue(len(vs)) }, "func(...*Value) *Value"},
 		{"f_ctx", func(ctx *pongo2.ExecutionContext) string { return "ctx" }, "func(*ExecutionContext) string"},
 		{"f_ctxarg", func(ctx *pongo2.ExecutionContext, i int) int { return i }, "func(*ExecutionContext,int) int"},
+		{"f_ctx3", func(ctx *pongo2.ExecutionContext, a, b, c string) string { return a + "-" + b + "-" + c }, "func(*ExecutionContext, string, string, string) string"},
+		{"f_ctx5", func(ctx *pongo2.ExecutionContext, a string, b, c, d, e int) string { return fmt.Sprint(a, b, c, d, e) }, "func(*ExecutionContext, string, int x4) string"},
+		{"f_ctxv", func(ctx *pongo2.ExecutionContext, xs ...int) int { return len(xs) }, "func(*ExecutionContext, ...int) int"},
 		{"f_err", func() (string, error) { return "", errors.New("deliberate " + s) }, "func() (string, error) failing"},
 		{"f_okerr", func() (string, error) { return s, nil }, "func() (string, error) ok"},
 		{"f_retnil", func() any { return nil }, "func() any returning nil"},
